@@ -15,6 +15,7 @@ fn main() {
         }
         "layers" => h::eng_layers::main(rest),
         "writer" => h::eng_writer::main(rest),
+        "repair" => h::eng_repair::main(rest),
         e => {
             eprintln!("unknown engine {e}");
             std::process::exit(2);
